@@ -50,6 +50,9 @@ def main():
         c.note("TLC: %s violated in StreamBlocks (model-level)" % res.violated_names())
     c.add_tlc(res)
     behaviours = tlc_cases(res.out)
+    writer_cases = [b for b in behaviours if "writer_script" in b]
+    behaviours = [b for b in behaviours if "writer_script" not in b]
+    c.cov["tlc_writer_scripts_with_empty_batches"] = len(writer_cases)
     for b in behaviours:
         b["partition"] = [x for x in b["wire"] if x > 0]
     c.cov["tlc_behaviours"] = len(behaviours)
@@ -136,6 +139,36 @@ def main():
                         if bad:
                             break
                 out.append((p, "cpp-calls-" + fmt, b, bad, infile))
+        # writer side: call scripts with empty batches (StreamBlocks.tla WriterCases) on the generated C++ binary writer; the items are
+        # default-constructed, what is asserted is how many the generated reader then finds before the end of each stream
+        wsel = writer_cases if thorough else rng.sample(writer_cases, min(len(writer_cases), 6))
+        nst = min(len(p.steps), 3)
+        for wi, wc in enumerate(wsel):
+            wfile = os.path.join(wd, "wcalls-%d.bin" % wi)
+            script = []
+            for i in range(len(p.steps)):
+                if i < nst:
+                    script += ["write %d" % i if k == 100 else "wbatch %d %d" % (i, k) for k in wc["writer_script"]]
+                script.append("end %d" % i)
+            script.append("close")
+            rc, lines, se = drivers.run_calls([p.calls_exe], "wcalls", "binary", wfile, script)
+            bad = None
+            if rc != 0 or any(l.startswith("EXC") for l in lines):
+                bad = "writer raised on the call script %s: %s" % (wc["writer_script"], [l for l in lines if l.startswith("EXC")][:1])
+            else:
+                n_items = sum(1 if k == 100 else k for k in wc["writer_script"])
+                rscript = []
+                for i in range(len(p.steps)):
+                    rscript += ["one %d" % i] * ((n_items if i < nst else 0) + 1)
+                rscript.append("close")
+                rc2, rl, se2 = drivers.run_calls([p.calls_exe], "rcalls", "binary", wfile, rscript)
+                oks = [l for l in rl if l.startswith("OK ")]
+                delivered = sum(1 for l in oks if l.split()[1] == "1")
+                if rc2 != 0 or any(l.startswith("EXC") for l in rl):
+                    bad = "after the writer calls %s (per stream) the generated reader fails on the stream: %s" % (wc["writer_script"], [l for l in rl if l.startswith("EXC")][:1])
+                elif delivered != n_items * nst:
+                    bad = "the writer calls %s (per stream) wrote %d items in %d streams, the reader finds %d" % (wc["writer_script"], n_items, nst, delivered)
+            out.append((p, "cpp-writer-calls", {"partition": wc["wire"], "calls": wc["writer_script"]}, bad, wfile))
         # whole-stream copies: every partition x batch capacity (C++) / write mode (Python), all values incl. non-JSON ones
         for pi, part in enumerate(partitions):
             for r in (1, 2):
